@@ -2,7 +2,7 @@
    to_* = pandapower -> per-unit ppc row (to_ppc/_pd2ppc), from_* = ppc row -> pandapower element (from_ppc).
    Square roots taken by the implementation are oracle inputs constrained by 0 <= s /\ s*s == argument. *)
 From Coq Require Import ZArith QArith List Bool.
-From PPV Require Import Base.QN C21.Model C21.Proofs.
+From PPV Require Import Base.QN C21.Model C21.Proofs C21.GenWhich C21.Impedance.
 Import ListNotations.
 Open Scope Q_scope.
 
@@ -88,6 +88,32 @@ Theorem C21_rating_old_nan_refuted : sn_of_rate_old None = None.
 Proof. exact sn_of_rate_old_nan. Qed.
 Print Assumptions C21_rating_old_nan_refuted.
 
+(* impedance-class branches (different base voltages, tap 0/1, no shift): ppc row -> net.impedance -> ppc row reproduces
+   r, x, b, g for EVERY rating, zero and NaN included (after the repair "fix: from_ppc treats a NaN rating of an impedance
+   branch like a missing one") *)
+Theorem C21_impedance_roundtrip : forall S r x b g rate, ~ S == 0 ->
+  let row := to_impedance S (from_impedance S r x b g rate) in
+  feq (ir_r row) r /\ feq (ir_x row) x /\ feq (ir_b row) b /\ feq (ir_g row) g.
+Proof. exact impedance_roundtrip. Qed.
+Print Assumptions C21_impedance_roundtrip.
+
+Example C21_impedance_roundtrip_nonvacuous :
+  ~ (10 # 1) == 0 /\ i_sn (from_impedance (10 # 1) (1 # 100) (4 # 100) 0 0 None) = Some MAX_VAL /\
+  i_sn (from_impedance (10 # 1) (1 # 100) (4 # 100) 0 0 (Some (25 # 1))) = Some (25 # 1).
+Proof. repeat split. intro H; discriminate H. Qed.
+
+(* the rule before the repair kept a NaN rating: regression witness and the guard under which it was right *)
+Theorem C21_impedance_roundtrip_old_refuted : exists S r x b g rate, ~ S == 0 /\
+  ~ feq (ir_r (to_impedance S (from_impedance_old S r x b g rate))) r.
+Proof. exact impedance_roundtrip_old_refuted. Qed.
+Print Assumptions C21_impedance_roundtrip_old_refuted.
+
+Theorem C21_impedance_roundtrip_old_partial : forall S r x b g rate, ~ S == 0 -> G21_imp_rate rate = true ->
+  let row := to_impedance S (from_impedance_old S r x b g rate) in
+  feq (ir_r row) r /\ feq (ir_x row) x /\ feq (ir_b row) b /\ feq (ir_g row) g.
+Proof. exact impedance_roundtrip_old_partial. Qed.
+Print Assumptions C21_impedance_roundtrip_old_partial.
+
 (* bus rows: PD/QD -> load or sgen -> PD/QD ; GS/BS -> shunt -> GS/BS *)
 Theorem C21_bus_pq_roundtrip : forall pd qd,
   fst (to_bus_pq (from_bus_pq pd qd)) == pd /\ snd (to_bus_pq (from_bus_pq pd qd)) == qd.
@@ -100,8 +126,8 @@ Proof. exact shunt_roundtrip. Qed.
 Print Assumptions C21_shunt_roundtrip.
 
 (* generator rows: every slack bus with gen rows gets exactly one ext_grid, every PV bus exactly one gen
-   (classification "first row of the bus"; equality of the implementation's regrouped computation gen_which with
-   gen_which_spec is validated by the correspondence run) *)
+   (classification "first row of the bus"; the implementation's regrouped computation gen_which equals it:
+   C21_gen_which_is_first_row_of_bus below) *)
 Theorem C21_one_ext_grid_per_slack_bus : forall b l,
   (forall g, In g l -> g_bus g = b -> g_type g = 3%Z) ->
   count_class b 0 l (gen_which_spec l) = if memz b (map g_bus l) then 1%nat else 0%nat.
@@ -113,6 +139,43 @@ Theorem C21_one_gen_per_pv_bus : forall b l,
   count_class b 1 l (gen_which_spec l) = if memz b (map g_bus l) then 1%nat else 0%nat.
 Proof. exact gen_spec_one_gen_per_pv_bus. Qed.
 Print Assumptions C21_one_gen_per_pv_bus.
+
+(* _gen_to_which as implemented (rows regrouped by bus type 3,2,1,4; duplicated() over that order; sort_index) is the
+   direct rule "ext_grid / gen = FIRST gen row of its bus in the original ppc order, every later row of a slack/PV bus
+   and every row of a PQ bus = sgen, rows of isolated buses are dropped", for every list of gen rows in which the bus
+   type is a function of the bus (in the implementation the type column is ppc["bus"][bus_pos, BUS_TYPE]). *)
+Theorem C21_gen_which_is_first_row_of_bus : forall l,
+  (forall g g', In g l -> In g' l -> g_bus g = g_bus g' -> g_type g = g_type g') ->
+  gen_which l = gen_which_spec l.
+Proof. exact gen_which_eq_spec. Qed.
+Print Assumptions C21_gen_which_is_first_row_of_bus.
+
+(* the hypothesis is needed: rows of ONE bus typed 2 then 3 are classified differently by the regrouped computation *)
+Theorem C21_gen_which_inconsistent_types_refuted : exists l, gen_which l <> gen_which_spec l.
+Proof. exact gen_which_neq_spec_without_consistency. Qed.
+Print Assumptions C21_gen_which_inconsistent_types_refuted.
+
+(* hence the implementation's own classification creates exactly one ext_grid per slack bus / one gen per PV bus *)
+Theorem C21_impl_one_ext_grid_per_slack_bus : forall b l,
+  (forall g g', In g l -> In g' l -> g_bus g = g_bus g' -> g_type g = g_type g') ->
+  (forall g, In g l -> g_bus g = b -> g_type g = 3%Z) ->
+  count_class b 0 l (gen_which l) = if memz b (map g_bus l) then 1%nat else 0%nat.
+Proof. exact gen_which_one_ext_grid_per_slack_bus. Qed.
+Print Assumptions C21_impl_one_ext_grid_per_slack_bus.
+
+Theorem C21_impl_one_gen_per_pv_bus : forall b l,
+  (forall g g', In g l -> In g' l -> g_bus g = g_bus g' -> g_type g = g_type g') ->
+  (forall g, In g l -> g_bus g = b -> g_type g = 2%Z) ->
+  count_class b 1 l (gen_which l) = if memz b (map g_bus l) then 1%nat else 0%nat.
+Proof. exact gen_which_one_gen_per_pv_bus. Qed.
+Print Assumptions C21_impl_one_gen_per_pv_bus.
+
+(* non-vacuity: 7 rows, buses 5(PQ) 2(PV) 7(slack) 2 7 9(isolated) 3(PV): consistent, several rows per bus, first rows
+   not in type order; classes sgen, gen, ext_grid, sgen, sgen, dropped, gen *)
+Example C21_gen_which_nonvacuous :
+  (forall g g', In g gw_example -> In g' gw_example -> g_bus g = g_bus g' -> g_type g = g_type g') /\
+  gen_which gw_example = [2; 1; 0; 2; 2; 3; 1]%nat.
+Proof. split; [exact gw_example_consistent | exact gw_example_value]. Qed.
 
 (* the hypotheses of C21_trafo_roundtrip are satisfiable: 110/20 kV, tap ratio 1.1, r+jx = 0.03+0.04j, g+jb = 0.004-0.003j *)
 Example C21_trafo_roundtrip_nonvacuous :
